@@ -233,7 +233,7 @@ JS_SHAPES = {
 def items(tier, rng):
     out = []
     q = tier == "quick"
-    cap = 120 if q else 4000
+    cap = 120 if q else 1500
     for shape, lst in JS_SHAPES.items():
         if shape == "3x3" and q:
             continue
@@ -253,11 +253,11 @@ def items(tier, rng):
         for op in OPS:
             if q and op in HEAVY and si % 3 != 0:
                 continue
-            out.append({"name": "vrp_" + op, "harness": "h_vrp_op", "max_paths": 120 if q else 3000,
+            out.append({"name": "vrp_" + op, "harness": "h_vrp_op", "max_paths": 120 if q else 1200,
                         "params": {"op": op, "n_cust": 3, "n_veh": 2, "multi": multi, "routes": routes, "unassigned": sorted(un)}})
             if op in ("sync_aware_insertion", "sync_removal", "route_removal") or not q:
                 # stale / arbitrary sync_assignments entry for the multi-vehicle customer
-                out.append({"name": "vrp_stale_" + op, "harness": "h_vrp_op", "max_paths": 120 if q else 3000,
+                out.append({"name": "vrp_stale_" + op, "harness": "h_vrp_op", "max_paths": 120 if q else 1200,
                             "params": {"op": op, "n_cust": 3, "n_veh": 2, "multi": multi, "routes": routes, "unassigned": sorted(un),
                                        "sync": {"1": [0, 1]}}})
         if si % (4 if q else 1) == 0:
@@ -265,7 +265,7 @@ def items(tier, rng):
                         "params": {"n_cust": 3, "n_veh": 2, "multi": multi, "routes": routes, "unassigned": sorted(un)}})
     if not q:
         big = list(enumerate_states(4, 3, {1: 2, 2: 2}))
-        for routes, un in rng.sample(big, 150):
+        for routes, un in rng.sample(big, 60):
             for op in OPS:
                 out.append({"name": "vrp4_" + op, "harness": "h_vrp_op", "max_paths": 1500,
                             "params": {"op": op, "n_cust": 4, "n_veh": 3, "multi": {"1": 2, "2": 2}, "routes": routes, "unassigned": sorted(un)}})
